@@ -9,8 +9,9 @@ import time
 from pathlib import Path
 
 ROOT = Path(__file__).resolve().parents[2]
-EVIDENCE_DIR = ROOT / "evidence"
-REPLAY_DIR = ROOT / "replays"
+# runs against a scratch worktree (VERIF_REPO_SRC: mutation experiments) must not overwrite the evidence of /repo
+EVIDENCE_DIR = ROOT / (".scratch_evidence" if os.environ.get("VERIF_REPO_SRC") else "evidence")
+REPLAY_DIR = ROOT / (".scratch_replays" if os.environ.get("VERIF_REPO_SRC") else "replays")
 FINDINGS_FILE = ROOT / "known_findings.json"
 
 LEVELS = ("exploration", "fault_enumeration", "model_checking", "proof", "translation_validation", "other")
